@@ -36,9 +36,17 @@ def jCs (j : Json) : Option (List Bool) :=
   | .ok (.str s) => some (parseCs s)
   | _ => none
 
+/-- The branch tests of ldmcsu.py / multitargetmcsu2.py are `isclose(x.imag, 0.0, abs_tol=1e-12)` (since /repo 91c03e6:
+imaginary parts at rounding level count as zero); the model's `isZero` is the exact test, which is also what
+`x_value == 0` in `_compute_gate_a` needs.  The driver therefore hands the model the input matrix with imaginary
+parts of magnitude <= 1e-12 set to 0: the model on the snapped matrix takes the branch the code takes on the original
+one, and every emitted parameter moves by at most 1e-12 (compared to 1e-9).  Over ℝ the theorems read the test as
+`x = 0`: on every input that reading calls real the code agrees, so they are unaffected. -/
+def snapIm (x : Float) : Float := if x.abs <= 1e-12 then 0.0 else x
+
 def matAt (a : Array Float) (i : Nat) : CMat Float :=
   let g := fun n => a.getD (i + n) 0.0
-  ⟨⟨g 0, g 1⟩, ⟨g 2, g 3⟩, ⟨g 4, g 5⟩, ⟨g 6, g 7⟩⟩
+  ⟨⟨g 0, snapIm (g 1)⟩, ⟨g 2, snapIm (g 3)⟩, ⟨g 4, snapIm (g 5)⟩, ⟨g 6, snapIm (g 7)⟩⟩
 
 def matStr (m : CMat Float) : String :=
   " ".intercalate ([m.a.re, m.a.im, m.b.re, m.b.im, m.c.re, m.c.im, m.d.re, m.d.im].map fbits)
